@@ -47,12 +47,13 @@ impl Clone for ConnectionInfo {
     fn clone(&self) -> (r: Self) ensures r == *self { unimplemented!() }
 }
 pub open spec fn default_rci() -> RedisConnectionInfo { RedisConnectionInfo { db: 0, username: None, password: None, protocol: ProtocolVersion::RESP2 } }
-impl RedisConnectionInfo {
+// #[derive(Default)] of the two mirrored types
+impl Default for RedisConnectionInfo {
     #[verifier::external_body]
-    pub fn default() -> (r: Self) ensures r == default_rci() { unimplemented!() }
+    fn default() -> (r: Self) ensures r == default_rci() { unimplemented!() }
 }
-impl ConnectionInfo {
-    pub fn default() -> (r: Self) ensures r.redis == default_rci(), (r.addr matches ConnectionAddr::Tcp(h, p) && h@ == "127.0.0.1"@ && p == 6379)
+impl Default for ConnectionInfo {
+    fn default() -> (r: Self) ensures r.redis == default_rci(), (r.addr matches ConnectionAddr::Tcp(h, p) && h@ == "127.0.0.1"@ && p == 6379)
     { ConnectionInfo { addr: ConnectionAddr::default(), redis: RedisConnectionInfo::default() } }
 }
 impl IntoConnectionInfoSpec for ConnectionInfo {
